@@ -221,6 +221,102 @@ class FnTranslator:
         self.toks = toks
         self.i = 0
         self.env = dict(env)   # var -> (lean expr, type)
+        # decision-logic extraction (translate/logic.py): token sequences standing for abstract
+        # values.  Each atom: dict(toks=[...], lean=str, ty=str, mode='val'|'app'|'skip'|'call',
+        # args=[...] for mode 'call').  Longest match first.
+        self.atoms = []
+
+    def try_atom(self):
+        for a in self.atoms:
+            n = len(a['toks'])
+            if self.toks[self.i:self.i + n] != a['toks']:
+                continue
+            self.i += n
+            mode = a.get('mode', 'val')
+            if mode == 'val':
+                if self.at_op('('):
+                    raise TranslateError("abstract value %s is called like a function" % a['lean'])
+                return (a['lean'], a['ty'])
+            if mode == 'app':
+                args = self.args()
+                if len(args) != a.get('arity', 1):
+                    raise TranslateError("arity of %s changed" % a['lean'])
+                return ("(%s %s)" % (a['lean'], ' '.join(x[0] for x in args)), a['ty'])
+            if mode == 'skip':
+                if not self.at_op('('):
+                    raise TranslateError("%s: expected a call" % a['lean'])
+                self.skip_parens()
+                return (a['lean'], a['ty'])
+            if mode == 'call':
+                raw = self.raw_args()
+                if len(raw) != len(a['args']):
+                    raise TranslateError("call of %s: %d arguments, expected %d" % (a['lean'], len(raw), len(a['args'])))
+                out = []
+                for spec, toks in zip(a['args'], raw):
+                    if spec == '_':
+                        if len(toks) > 3 or any(t[0] != 'id' and t not in (('op', '&'), ('op', '.')) for t in toks):
+                            raise TranslateError("call of %s: context argument is not a plain handle" % a['lean'])
+                        continue
+                    sub = FnTranslator(self.ctx, self.self_ty, toks + [('eof', None)], self.env)
+                    sub.atoms = self.atoms
+                    e, _ = sub.expr()
+                    if sub.peek()[0] != 'eof':
+                        raise TranslateError("call of %s: trailing tokens in argument" % a['lean'])
+                    out.append(e)
+                return ("(%s)" % ' '.join([a['lean']] + out), a['ty'])
+            raise TranslateError("bad atom mode")
+        return None
+
+    def raw_args(self):
+        """token lists of the arguments of a call (cfg(feature = "detailed-trace") arguments dropped)"""
+        self.expect_op('(')
+        depth, cur, out = 1, [], []
+        while True:
+            t = self.next()
+            if t[0] == 'eof':
+                raise TranslateError("unterminated call")
+            if t[0] == 'op' and t[1] in '([{':
+                depth += 1
+            elif t[0] == 'op' and t[1] in ')]}':
+                depth -= 1
+                if depth == 0:
+                    break
+            if t == ('op', ',') and depth == 1:
+                out.append(cur); cur = []
+            else:
+                cur.append(t)
+        if cur:
+            out.append(cur)
+        trace_attr = lex('#[cfg(feature = "detailed-trace")]')[:-1]
+        res = []
+        for a in out:
+            if a[:len(trace_attr)] == trace_attr:
+                continue
+            if a and a[0] == ('op', '#'):
+                raise TranslateError("attribute on call argument")
+            res.append(a)
+        return res
+
+    def skip_trace_attr(self):
+        """`#[cfg(feature = "detailed-trace")]`: returns True if skipped"""
+        trace_attr = lex('#[cfg(feature = "detailed-trace")]')[:-1]
+        if self.toks[self.i:self.i + len(trace_attr)] == trace_attr:
+            self.i += len(trace_attr)
+            return True
+        return False
+
+    def skip_statement(self):
+        depth = 0
+        while True:
+            t = self.next()
+            if t[0] == 'eof':
+                raise TranslateError("unterminated statement")
+            if t[0] == 'op' and t[1] in '([{':
+                depth += 1
+            elif t[0] == 'op' and t[1] in ')]}':
+                depth -= 1
+            elif t == ('op', ';') and depth == 0:
+                return
 
     # token helpers
     def peek(self, k=0):
@@ -251,6 +347,45 @@ class FnTranslator:
         lets = []
         result = None
         while not (self.at_op('}') or self.peek()[0] == 'eof'):
+            if self.at_op('#'):
+                # a statement that only exists with the `detailed-trace` feature (logging)
+                if not self.skip_trace_attr():
+                    raise TranslateError("attribute on a statement")
+                self.skip_statement()
+                continue
+            if self.at_id('crate') and self.peek(1) == ('op', '::') and self.peek(2) == ('id', 'tracing') \
+                    and self.peek(3) == ('op', '::') and self.peek(4)[0] == 'id' \
+                    and self.peek(4)[1] in ('trace!', 'debug!', 'info!', 'warn!'):
+                self.i += 5
+                self.skip_parens()
+                if self.at_op(';'):
+                    self.next()
+                continue
+            if self.at_id('let') and self.peek(1) == ('id', 'Some') and self.peek(2) == ('op', '('):
+                # `let Some(v) = e else { return r; };  rest`
+                self.i += 3
+                name = self.expect_id()
+                self.expect_op(')')
+                self.expect_op('=')
+                e, ty = self.expr(no_struct=True)
+                if not ty.startswith('Option<'):
+                    raise TranslateError("let-else on non-Option %s" % ty)
+                if not self.at_id('else'):
+                    raise TranslateError("let Some(..) without else")
+                self.next()
+                self.expect_op('{')
+                if not self.at_id('return'):
+                    raise TranslateError("let-else must return")
+                self.next()
+                r, rty = self.expr(expected=expected)
+                self.expect_op(';')
+                self.expect_op('}')
+                self.expect_op(';')
+                v = self.fresh(name)
+                self.env[name] = (v, ty[7:-1])
+                rest, rest_ty = self.block(expected=expected or rty)
+                body = "(match %s with\n    | none => %s\n    | some %s => %s)" % (e, r, v, rest)
+                return self.wrap(lets, body), rest_ty
             if self.at_id('let'):
                 self.next()
                 mut = False
@@ -440,6 +575,16 @@ class FnTranslator:
                 return ("(!%s)" % e, ty)
             w = self.ctx.width(ty)
             return ("(2^%d - 1 - %s)" % (w, e), ty)
+        if self.atoms and (self.at_op('*') or self.at_op('&')):
+            # deref / shared borrow in operand position: same value (only in decision extraction;
+            # an atom that starts with the same token takes precedence)
+            save = self.i
+            got = self.try_atom()
+            if got is not None:
+                return self.postfix(got)
+            self.i = save
+            self.next()
+            return self.unary(no_struct, expected)
         return self.postfix(self.primary(no_struct, expected))
 
     def postfix(self, v):
@@ -458,6 +603,25 @@ class FnTranslator:
                         raise TranslateError("tuple field on %s" % ty)
                     continue
                 name = t[1]
+                if name == 'is_some_and' and self.at_op('(') and self.peek(1) == ('op', '|'):
+                    # `opt.is_some_and(|v| cond)`
+                    e, ty = v
+                    if not ty.startswith('Option<'):
+                        raise TranslateError("is_some_and on %s" % ty)
+                    self.next(); self.next()
+                    pname = self.expect_id()
+                    self.expect_op('|')
+                    pv = self.fresh(pname)
+                    saved = self.env.get(pname)
+                    self.env[pname] = (pv, ty[7:-1])
+                    body, _ = self.expr()
+                    if saved is None:
+                        del self.env[pname]
+                    else:
+                        self.env[pname] = saved
+                    self.expect_op(')')
+                    v = ("(match %s with | some %s => %s | none => false)" % (e, pv, body), 'bool')
+                    continue
                 if self.at_op('('):
                     args = self.args()
                     v = self.method(v, name, args)
@@ -496,6 +660,11 @@ class FnTranslator:
         e, ty = recv
         if name == 'get' and self.ctx.base(ty) in WIDTH and not args:
             return (e, self.ctx.base(ty))
+        if name == 'load' and not args and ty in getattr(self.ctx, 'atomics', {}):
+            # atomic cell read under the owner's lock / single RMW: the stored value
+            return (e, self.ctx.atomics[ty])
+        if name in ('is_some', 'is_none') and not args and ty.startswith('Option<'):
+            return ("(%s).%s" % (e, 'isSome' if name == 'is_some' else 'isNone'), 'bool')
         if name == 'to_le_bytes' and not args:
             return (e, 'bytes:' + self.ctx.base(ty))
         if name == 'expect' and ty.startswith('Option<'):
@@ -507,6 +676,28 @@ class FnTranslator:
         return ("(%s %s)" % (lname, ' '.join([e] + [a[0] for a in args])), rty)
 
     def primary(self, no_struct, expected):
+        if self.atoms:
+            got = self.try_atom()
+            if got is not None:
+                return got
+        if self.at_id('matches!'):
+            # `matches!(e, Enum::A | Enum::B)` over a translated (Nat-valued) enum
+            self.next()
+            self.expect_op('(')
+            e, ety = self.expr()
+            self.expect_op(',')
+            alts = []
+            while True:
+                p, pty = self.primary(True, ety)
+                if self.ctx.base(pty) not in self.ctx.enums:
+                    raise TranslateError("matches!: pattern is not a plain enum variant")
+                alts.append("decide (%s = %s)" % (e, p))
+                if self.at_op('|'):
+                    self.next()
+                    continue
+                break
+            self.expect_op(')')
+            return ("(" + " || ".join(alts) + ")", 'bool')
         t = self.next()
         if t[0] == 'num':
             ty = t[2] or (expected if expected and self.ctx.base(expected) in WIDTH else 'u32')
